@@ -81,7 +81,9 @@ fn oracle(s: &ProgScene<X>, t: &Trace) -> Vec<Violation> {
     let last_drop = if strong_at(usize::MAX - 1) == 0 { deltas.iter().filter(|(_, d)| *d < 0).map(|(p, _)| *p).max() } else { None };
 
     let stop_requested = s.clients.iter().flat_map(|c| c.ops.iter()).any(|op| matches!(op, Op::Stop(_) | Op::Halt(_) | Op::Consume(_) | Op::Cmd(_, _, Action::Stop)));
-    let stopped_enter = an.enters.iter().find(|e| e.a == 0 && e.cb == Cb::Stopped).map(|e| e.idx);
+    // the stopped() of the termination (a restart also calls stopped(), followed by started())
+    let last_started = an.enters.iter().filter(|e| e.a == 0 && e.cb == Cb::Started).map(|e| e.idx).max().unwrap_or(0);
+    let stopped_enter = an.enters.iter().find(|e| e.a == 0 && e.cb == Cb::Stopped && e.idx > last_started).map(|e| e.idx);
     let term = an.task_end(0);
 
     // (A) alive while a strong handle exists and nobody stopped it
@@ -201,6 +203,8 @@ fn scripts() -> Vec<(&'static str, Vec<HInit>, Vec<Op>)> {
         ("weak-caller", vec![HInit::Addr], vec![Op::ToWeakCaller(a0), Op::Call(H::WCal(0), 7), Op::Drop(a0), Op::Upgrade(H::WCal(0)), Op::Drop(H::Cal(0)), Op::UpgradeProbe(H::WCal(0))]),
         ("owner-detach", vec![HInit::Own], vec![Op::Send(H::Own(0), 8), Op::Detach(H::Own(0)), Op::Drop(H::Addr(0))]),
         ("held-sender", vec![HInit::Snd], vec![Op::Send(H::Snd(0), 9), Op::Downgrade(H::Snd(0)), Op::Drop(H::Snd(0)), Op::UpgradeProbe(H::WSnd(0))]),
+        ("restart-send-drop", vec![HInit::Addr], vec![Op::Restart(a0), Op::Send(a0, 11), Op::Drop(a0)]),
+        ("send-restart-call-drop", vec![HInit::Addr, HInit::Cal], vec![Op::Send(a0, 12), Op::Restart(a0), Op::Drop(a0), Op::Call(H::Cal(0), 13), Op::Drop(H::Cal(0))]),
         ("held-caller", vec![HInit::Cal], vec![Op::Call(H::Cal(0), 10), Op::Downgrade(H::Cal(0)), Op::Drop(H::Cal(0)), Op::UpgradeProbe(H::WCal(0))]),
     ]
 }
@@ -322,10 +326,19 @@ fn cases(tier: Tier) -> Vec<Case> {
     for &mb in mbs {
         for &ex in &extras {
             // the owner script can appear at most once
+            let restarting = |k: usize| scripts()[k].0.contains("restart");
             for i in 0..n {
+                // the restart scripts re-register every timer; they are combined with the plain
+                // and the delayed_exec scenes only
+                if restarting(i) && !matches!(ex, Extras::None | Extras::DelayedExec) {
+                    continue;
+                }
                 v.push(make_case(&[i], ex, mb, 0, None));
                 for j in i..n {
                     if i == 7 && j == 7 {
+                        continue;
+                    }
+                    if restarting(j) && !matches!(ex, Extras::None | Extras::DelayedExec) {
                         continue;
                     }
                     let big = ex != Extras::None;
@@ -336,10 +349,15 @@ fn cases(tier: Tier) -> Vec<Case> {
         }
         // stream-attached actors (the other event loop): an open stream must not keep the actor alive
         if mb == Mailbox::U {
+            // (a restart cannot be sent to a stream-attached actor: scripts 10 and 11 stay out)
+            let restarting = |k: usize| scripts()[k].0.contains("restart");
             for i in 0..n {
+                if restarting(i) {
+                    continue;
+                }
                 v.push(make_case_s(&[i], Extras::None, mb, 0, None, true));
                 for j in i..n {
-                    if i == 7 && j == 7 {
+                    if (i == 7 && j == 7) || restarting(j) {
                         continue;
                     }
                     v.push(make_case_s(&[i, j], Extras::None, mb, 0, None, true));
